@@ -29,11 +29,12 @@ def main(pid, argv):
     ck.rule = ("(a) senders: generated parameter values (nested trees, Go maps, json.Number, json.RawMessage with whitespace, strings with NUL/quotes/control/"
                "non-BMP/invalid UTF-8, sizes up to several MiB, depth up to 2000) x reply kinds (plain, continues, error) through the service's reply marshalling "
                "and through Connection.Send into a recording connection; (b) receivers: real client <-> real service through a re-segmenting proxy (1-byte writes; "
-               "pseudo-random cuts up to 9000 bytes) with frames from a few bytes to > 64 KiB in both directions. distinct = distinct cases; non-trivial = value with "
+               "pseudo-random cuts up to 9000 bytes; pauses of 150 ms inside a frame while the receiver's context has no deadline) with frames from a few bytes to > 64 KiB in both directions; (c) the replies the service builds itself (standard errors, GetInfo, descriptions) for method strings and interface names "
+               "with BEL, VT, DEL, NUL, ESC, U+2028, U+E0001, BOM, invalid UTF-8. distinct = distinct cases; non-trivial = value with "
                "a string or nesting")
     ck.assumptions = ["bufio's buffer discipline is modelled (capacity parameter); the kernel may coalesce or split the proxy's writes further, which the theorem covers (any partition)"]
     ck.check_obligations()
-    bins = C.build(ck, ("h_json", "h_e2e", "h_relay"))
+    bins = C.build(ck, ("h_json", "h_e2e", "h_relay", "h_svc"))
     if bins is None:
         return ck.finish()
     rng = ck.rng
@@ -98,6 +99,15 @@ def main(pid, argv):
             ops.append("call %d %s {71:S%s;} %d" % (1 if k else 0, m.hex(), (b"q" * psz).hex(), k + 1))
         ops.append("getinfo")
         cases.append(" | ".join(secs + ["transport " + ("proxy1" if (i % 2 == 0 and i % 3 != 0 and i % 3 != 1) or i % 6 == 5 else "proxyR")] + ops))
+    # pauses inside a frame: one quick call under a short deadline, then calls under contexts without a deadline whose replies arrive in parts 150 ms apart
+    for i in range(48 if thorough else 12):
+        secs = ["svc 76 70 31 75 -", "iface %s %s" % (S.hx(b"a.b"), S.hx(b"interface a.b\nmethod M() -> ()"))]
+        ops = []
+        for mi in range(rng.choice([2, 3])):
+            m = b"a.b.M%d" % mi
+            secs.append(S.script_text(m, [S.Step("r", "e", val="{70:S%s;,6e:D%s;}" % ((b"x" * rng.choice([3, 40, 500])).hex(), str(mi).encode().hex()))], False))
+            ops.append("call 0 %s {71:S%s;} 1" % (m.hex(), (b"q" * rng.choice([0, 30])).hex()))
+        cases.append(" | ".join(secs + ["transport proxyP"] + ops))
     impl = _run(bins["h_e2e"], cases)
     model = V.run_model_parallel("e2e-run", cases, jobs=4)
     for l, il, ml in zip(cases, impl, model):
@@ -109,6 +119,55 @@ def main(pid, argv):
             nf += 1
             ck.fail("wire-proxy", l[:3000], "behind a re-segmenting proxy client and service did not recover the messages that were sent",
                         impl=il[:400], model=ml[:400])
+    # ---- (c) the replies the service builds itself (standard errors echo text chosen by the peer, GetInfo / descriptions echo registered text) ----
+    odd = [b"\x07bell", b"v\x0btab", b"\x7fdel", b"nul\x00", "\U000e0001tag".encode(), "\u2028ls\u2029".encode(), b'q"uote\\', "\ufeffbom".encode(), b"\x1b[0m",
+           "\U0001f600".encode(), "\u0085nel".encode(), b"\xff\xfe", b"a\x01\x02\x03\x1f", b"<&>", b"\r\n"]
+    scases, smeta, meta_of = [], [], {}
+    for i in range(1500 if thorough else 200):
+        secs, meta = C.gen_service(rng, n_if=rng.choice([0, 1, 2]), simple_scripts=True)
+        calls, data = [], b""
+        for _ in range(rng.choice([2, 5, 9])):
+            a, b = rng.choice(odd + [J.rand_string(rng)] + meta["registry"]), rng.choice(odd + [J.rand_string(rng), b"M"])
+            method = rng.choice([a + b"." + b, a + b"." + b, a, S.SVC + b"." + b, b"." + b, a + b"."])
+            params = None
+            if rng.random() < 0.25:
+                method = S.SVC + b".GetInterfaceDescription"
+                params = b'{"interface":' + J.esc_string(rng, rng.choice(odd + meta["registry"])) + b"}"
+            calls.append(C.Call(method, params))
+            data += S.call_bytes(rng, method, params, False, False, False) + b"\x00"
+        secs.append("conn half %s" % ",".join(c.hex() for c in S.segment(rng, data)))
+        scases.append(" | ".join(secs))
+        smeta.append(calls)
+        meta_of[scases[-1]] = meta
+    simpl = C.run_impl(bins["h_svc"], scases)
+    smodel = C.run_model(scases)
+    for l, calls, il, ml in zip(scases, smeta, simpl, smodel):
+        ck.evaluations += 1
+        ck.count("service-built replies", len(calls))
+        ck.distinct.add(("svc", l[:3000]))
+        iconns, _ = C.split_result(il)
+        mconns, _ = C.split_result(ml)
+        bad = None
+        if iconns is None:
+            bad = "service run failed: " + il[:200]
+        else:
+            out, _, _ = C.conn_fields(iconns[0])
+            if out is None:
+                bad = "client did not reach end of stream"
+            else:
+                frames, trailing = C.frames_of(out)
+                if trailing:
+                    bad = "bytes after the last NUL"
+                else:
+                    for fr in frames:
+                        bad = bad or wire_ok(fr + b"\x00")
+                    if not bad and all(C.utf8(c.method) and (c.params is None or C.utf8(c.params)) for c in calls):
+                        bad = C.check_conn(meta_of[l], calls, iconns[0], 0)
+        if bad:
+            nf += 1
+            ck.fail("wire-service-reply", l[:30000], bad, impl=il[:600], model=ml[:600])
+        elif iconns != mconns and all(C.utf8(c.method) for c in calls):
+            ck.tie_broken("service-built replies differ from the model", l[:1200], il[:600], ml[:600])
     ck.extra["failing_inputs_total"] = nf
     ck.sample(dict(case=replies[0][:200]))
     ck.sample(dict(case=cases[0][:300], impl=impl[0][:200]))
